@@ -457,6 +457,45 @@ pub struct SlotView {
     pub woken: bool,
 }
 
+/// A small stack vector of `SlotView`s (no heap allocation in the monitors' hot path).
+pub struct Views {
+    items: [SlotView; 24],
+    len: usize,
+}
+
+impl Views {
+    pub fn new() -> Views {
+        Views { items: [SlotView { queue: 0, idx: 0, range: None, pending: false, woken: false }; 24], len: 0 }
+    }
+    pub fn push(&mut self, v: SlotView) {
+        self.items[self.len] = v;
+        self.len += 1;
+    }
+}
+
+impl Default for Views {
+    fn default() -> Self {
+        Self::new()
+    }
+}
+
+impl std::ops::Deref for Views {
+    type Target = [SlotView];
+    fn deref(&self) -> &[SlotView] {
+        &self.items[..self.len]
+    }
+}
+
+impl FromIterator<SlotView> for Views {
+    fn from_iter<I: IntoIterator<Item = SlotView>>(iter: I) -> Views {
+        let mut v = Views::new();
+        for x in iter {
+            v.push(x);
+        }
+        v
+    }
+}
+
 /// C01 (a)-(c) for linked-list queues. `queues` lists the queue ids that exist.
 /// Returns the forward order of each queue as slot indices through `order_out` (for fingerprints
 /// and for world specific checks).
@@ -469,9 +508,15 @@ pub fn check_list_queues(
     lost_wakeup_prop: &'static str,
 ) {
     order_out.clear();
+    let es = &snap.entries;
     for &q in queues {
-        let fwd: Vec<&EntryRec> = snap.entries.iter().filter(|e| e.queue == q).collect();
-        let bwd: Vec<&EntryRec> = snap.entries.iter().filter(|e| e.queue == (q | 0x80)).collect();
+        // forward entries of a queue are contiguous (hook order), followed by its backward entries
+        let f0 = es.iter().position(|e| e.queue == q).unwrap_or(es.len());
+        let f1 = f0 + es[f0..].iter().take_while(|e| e.queue == q).count();
+        let b0 = es.iter().position(|e| e.queue == (q | 0x80)).unwrap_or(es.len());
+        let b1 = b0 + es[b0..].iter().take_while(|e| e.queue == (q | 0x80)).count();
+        let fwd = &es[f0..f1];
+        let bwd = &es[b0..b1];
         if fwd.len() >= (1 << 16) || bwd.len() >= (1 << 16) {
             run.violate("C01", "queue-cycle", format!("queue {} walk did not terminate", q));
             return;
@@ -499,8 +544,8 @@ pub fn check_list_queues(
             }
         }
         // (a) every linked node belongs to a pending slot of this queue, each once
-        let mut seen: Vec<u8> = Vec::new();
-        for e in &fwd {
+        let mut seen: u64 = 0;
+        for e in fwd {
             let owner = views.iter().find(|v| v.queue == q && v.range.is_some_and(|(lo, hi)| e.addr >= lo && e.addr < hi));
             match owner {
                 None => {
@@ -520,11 +565,11 @@ pub fn check_list_queues(
                         );
                         return;
                     }
-                    if seen.contains(&v.idx) {
+                    if seen & (1u64 << v.idx) != 0 {
                         run.violate("C01", "linked-twice", format!("queue {}: slot {} is linked twice", q, v.idx));
                         return;
                     }
-                    seen.push(v.idx);
+                    seen |= 1u64 << v.idx;
                     let wv = match e.waker {
                         None => 0,
                         Some(255) => 255,
@@ -536,7 +581,7 @@ pub fn check_list_queues(
         }
         // (c) every pending slot without an unconsumed wake is linked
         for v in views.iter().filter(|v| v.queue == q) {
-            if v.pending && !v.woken && !seen.contains(&v.idx) {
+            if v.pending && !v.woken && seen & (1u64 << v.idx) == 0 {
                 run.violate2(
                     "C01",
                     lost_wakeup_prop,
